@@ -1,5 +1,409 @@
-//! C20 - monitor not written yet.
+//! C20 - package database iteration; metadata tables.
+//!
+//! Refuting events: the multiset of yielded `pkgname`s != the set of
+//! sub-directories holding all of `+COMMENT`, `+CONTENTS`, `+DESC`; a package
+//! yielded twice; `pkgbase`/`pkgversion` != the parts before/after the last
+//! '-'; `read_metadata(e)` != the content of that package's file (or `Ok` for
+//! an absent one); `from_filename(to_filename(e)) != e`, two entries sharing a
+//! file name, a non-`+FILE` string mapped to an entry; `Metadata::is_valid()`
+//! differs from "comment, contents, description all non-empty".
+//!
+//! The tree is built by the harness under `cx.scratch` (ground truth by
+//! construction) outside the monitored body; only library calls happen inside.
 
-use crate::fw::Cx;
+use crate::fw::{CaseResult, Cx, Ev};
+use crate::gen::misc::{self as gm, Tree};
+use crate::oracle::misc::{self as om, MANDATORY, META_FILES};
+use crate::rng::{hash_bytes, hash_strs};
+use pkgsrc::pkgdb::PkgDB;
+use pkgsrc::{Metadata, MetadataEntry};
+use std::path::Path;
 
-pub fn run(_cx: &mut Cx) {}
+fn entry(i: usize) -> MetadataEntry {
+    match i {
+        0 => MetadataEntry::BuildInfo,
+        1 => MetadataEntry::BuildVersion,
+        2 => MetadataEntry::Comment,
+        3 => MetadataEntry::Contents,
+        4 => MetadataEntry::DeInstall,
+        5 => MetadataEntry::Desc,
+        6 => MetadataEntry::Display,
+        7 => MetadataEntry::Install,
+        8 => MetadataEntry::InstalledInfo,
+        9 => MetadataEntry::MtreeDirs,
+        10 => MetadataEntry::Preserve,
+        11 => MetadataEntry::RequiredBy,
+        12 => MetadataEntry::SizeAll,
+        _ => MetadataEntry::SizePkg,
+    }
+}
+
+fn must<T>(r: std::io::Result<T>, what: &str, p: &Path) -> T {
+    match r {
+        Ok(v) => v,
+        Err(e) => {
+            // Not a verdict: the harness could not prepare its own scratch tree.
+            eprintln!("pvh: harness cannot {what} {p:?}: {e}");
+            std::process::exit(70);
+        }
+    }
+}
+
+fn build_tree(root: &Path, t: &Tree) {
+    must(std::fs::create_dir_all(root), "create", root);
+    for d in &t.dirs {
+        let dp = root.join(&d.name);
+        must(std::fs::create_dir(&dp), "create", &dp);
+        for (i, c) in d.files.iter().enumerate() {
+            if let Some(c) = c {
+                let fp = dp.join(META_FILES[i]);
+                must(std::fs::write(&fp, c), "write", &fp);
+            }
+        }
+        for (n, c) in &d.extra {
+            let fp = dp.join(n);
+            must(std::fs::write(&fp, c), "write", &fp);
+        }
+    }
+    for (n, c) in &t.stray {
+        let fp = root.join(n);
+        must(std::fs::write(&fp, c), "write", &fp);
+    }
+}
+
+fn describe_tree(t: &Tree) -> String {
+    let dirs: Vec<String> = t
+        .dirs
+        .iter()
+        .map(|d| {
+            let missing: Vec<&str> = (0..3)
+                .filter(|b| d.missing_mask & (1 << b) != 0)
+                .map(|b| META_FILES[MANDATORY[b]])
+                .collect();
+            let optional = d
+                .files
+                .iter()
+                .enumerate()
+                .filter(|(i, f)| f.is_some() && !MANDATORY.contains(i))
+                .count();
+            if missing.is_empty() {
+                format!("{:?}(complete,+{optional} optional)", d.name)
+            } else {
+                format!("{:?}(missing {},+{optional} optional)", d.name, missing.join(" "))
+            }
+        })
+        .collect();
+    let stray: Vec<&str> = t.stray.iter().map(|(n, _)| n.as_str()).collect();
+    format!("dirs [{}] plain files {:?}", dirs.join(", "), stray)
+}
+
+fn check_tree(ev: &mut Ev, root: &Path, t: &Tree) -> CaseResult {
+    ev.count("trees");
+    if t.dirs.is_empty() {
+        ev.count("trees/empty_database");
+    }
+    for d in &t.dirs {
+        ev.count(&format!("dirs/missing_mask/{}", d.missing_mask));
+    }
+    ev.add("plain_files", t.stray.len() as u64);
+
+    let db = PkgDB::open(root).map_err(|e| format!("PkgDB::open failed on a directory: {e}"))?;
+    let limit = t.dirs.len() * 4 + t.stray.len() * 4 + 16;
+    let mut seen: Vec<String> = vec![];
+    for (k, item) in db.enumerate() {
+        if k >= limit {
+            return Err(format!("iterator yielded more than {limit} items").into());
+        }
+        let pkg = item.map_err(|e| format!("iterator yielded an error: {e}"))?;
+        let name = pkg.pkgname().clone();
+        let Some(d) = t.dirs.iter().find(|d| d.name == name) else {
+            let what = if t.stray.iter().any(|(n, _)| *n == name) { "a plain file" } else { "no directory" };
+            return Err(format!("yielded {name:?}, which is {what} of the database").into());
+        };
+        ev.eval();
+        if !d.complete() {
+            return Err(format!(
+                "yielded {name:?} although it lacks mandatory files (mask {})",
+                d.missing_mask
+            )
+            .into());
+        }
+        if seen.contains(&name) {
+            return Err(format!("yielded {name:?} twice").into());
+        }
+        seen.push(name.clone());
+        let (base, version) = om::split_last_dash(&name);
+        ev.evals(2);
+        if pkg.pkgbase() != base || pkg.pkgversion() != version {
+            return Err(format!(
+                "{name:?}: pkgbase {:?} / pkgversion {:?}, the last '-' gives ({base:?}, {version:?})",
+                pkg.pkgbase(),
+                pkg.pkgversion()
+            )
+            .into());
+        }
+        for i in 0..14 {
+            ev.eval();
+            let got = pkg.read_metadata(entry(i));
+            match (&d.files[i], got) {
+                (Some(want), Ok(g)) => {
+                    ev.count("metadata/read_present");
+                    if g != *want {
+                        return Err(format!(
+                            "{name:?}: read_metadata({:?}) returned {g:?}, the file {} holds {want:?}",
+                            entry(i),
+                            META_FILES[i]
+                        )
+                        .into());
+                    }
+                }
+                (None, Err(_)) => ev.count("metadata/read_absent"),
+                (Some(_), Err(e)) => {
+                    return Err(format!(
+                        "{name:?}: read_metadata({:?}) failed ({e}) although {} exists",
+                        entry(i),
+                        META_FILES[i]
+                    )
+                    .into())
+                }
+                (None, Ok(g)) => {
+                    return Err(format!(
+                        "{name:?}: read_metadata({:?}) returned {g:?} although {} does not exist",
+                        entry(i),
+                        META_FILES[i]
+                    )
+                    .into())
+                }
+            }
+        }
+    }
+    ev.eval();
+    for d in &t.dirs {
+        if d.complete() && !seen.contains(&d.name) {
+            return Err(format!("complete package directory {:?} was not yielded", d.name).into());
+        }
+    }
+    ev.add("packages_yielded", seen.len() as u64);
+    let multi = t.dirs.iter().filter(|d| d.complete() && om::count_dashes(&d.name) >= 2).count();
+    if multi > 0 || t.dirs.iter().any(|d| !d.complete()) {
+        let names: Vec<&[u8]> = t.dirs.iter().map(|d| d.name.as_bytes()).collect();
+        ev.nontrivial(hash_strs(&names) ^ t.dirs.iter().map(|d| d.missing_mask as u64).sum::<u64>());
+    }
+    Ok(())
+}
+
+fn check_tables(ev: &mut Ev, mutated: &[String]) -> CaseResult {
+    // entry -> name -> entry, against the harness' own table
+    let mut names: Vec<String> = vec![];
+    for i in 0..14 {
+        ev.evals(3);
+        ev.count("table/rows");
+        let e = entry(i);
+        let f = e.to_filename().to_string();
+        if f != META_FILES[i] {
+            return Err(format!("{e:?}.to_filename() is {f:?}, expected {:?}", META_FILES[i]).into());
+        }
+        if names.contains(&f) {
+            return Err(format!("two entries share the file name {f:?}").into());
+        }
+        match MetadataEntry::from_filename(&f) {
+            Some(back) if back == e => {}
+            other => {
+                return Err(format!("from_filename(to_filename({e:?})) is {other:?}").into());
+            }
+        }
+        match MetadataEntry::from_filename(META_FILES[i]) {
+            Some(back) if back == e => {}
+            other => {
+                return Err(format!("from_filename({:?}) is {other:?}, expected {e:?}", META_FILES[i]).into());
+            }
+        }
+        names.push(f);
+    }
+    for s in gm::NEAR_MISS.iter().map(|s| s.to_string()).chain(mutated.iter().cloned()) {
+        ev.eval();
+        let want = META_FILES.iter().position(|f| *f == s);
+        let got = MetadataEntry::from_filename(&s);
+        match (want, got) {
+            (None, None) => ev.count("table/near_miss_rejected"),
+            (Some(i), Some(g)) if g == entry(i) => ev.count("table/mutated_is_real_name"),
+            (want, got) => {
+                return Err(format!(
+                    "from_filename({s:?}) is {got:?}, expected {:?}",
+                    want.map(entry)
+                )
+                .into())
+            }
+        }
+    }
+    ev.nontrivial(hash_bytes(mutated.concat().as_bytes()));
+    Ok(())
+}
+
+struct ValidCase {
+    /// Text per mandatory entry; `None` = read_metadata is not called at all.
+    texts: [Option<String>; 3],
+    order: Vec<usize>,
+    optional: Vec<(usize, String)>,
+}
+
+fn check_is_valid(ev: &mut Ev, c: &ValidCase) -> CaseResult {
+    let mut m = Metadata::new();
+    for &k in &c.order {
+        if k < 3 {
+            if let Some(t) = &c.texts[k] {
+                m.read_metadata(entry(MANDATORY[k]), t)
+                    .map_err(|e| format!("read_metadata({:?}) failed: {e}", entry(MANDATORY[k])))?;
+            }
+        } else if let Some((i, t)) = c.optional.get(k - 3) {
+            m.read_metadata(entry(*i), t)
+                .map_err(|e| format!("read_metadata({:?}, {t:?}) failed: {e}", entry(*i)))?;
+        }
+    }
+    let nonempty: Vec<bool> =
+        c.texts.iter().map(|t| t.as_ref().map(|s| !s.is_empty()).unwrap_or(false)).collect();
+    let want = nonempty.iter().all(|b| *b);
+    let mask = nonempty.iter().enumerate().map(|(i, b)| (*b as usize) << i).sum::<usize>();
+    ev.count(&format!("is_valid/nonempty_mask/{mask}"));
+    ev.eval();
+    let got = m.is_valid().is_ok();
+    if got != want {
+        return Err(format!(
+            "is_valid() is {}, comment/contents/desc non-empty = {nonempty:?}",
+            if got { "Ok" } else { "Err" }
+        )
+        .into());
+    }
+    ev.nontrivial(hash_strs(&[
+        c.texts[0].as_deref().unwrap_or("\0").as_bytes(),
+        c.texts[1].as_deref().unwrap_or("\0").as_bytes(),
+        c.texts[2].as_deref().unwrap_or("\0").as_bytes(),
+    ]));
+    Ok(())
+}
+
+pub fn run(cx: &mut Cx) {
+    cx.default_budget();
+    for mask in 0..8 {
+        cx.ev.require(&format!("dirs/missing_mask/{mask}"));
+        cx.ev.require(&format!("is_valid/nonempty_mask/{mask}"));
+    }
+    for k in [
+        "trees/empty_database",
+        "plain_files",
+        "open/missing_path",
+        "open/plain_file",
+        "metadata/read_present",
+        "metadata/read_absent",
+        "table/rows",
+        "table/near_miss_rejected",
+    ] {
+        cx.ev.require(k);
+    }
+    let scratch = cx.scratch.clone();
+    must(std::fs::create_dir_all(&scratch), "create", &scratch);
+
+    // (a) trees
+    let n = cx.per_shard(16, 320, 1_600, 24_000);
+    let mut r = cx.stream("trees");
+    let mut serial = 0usize;
+    for k in 0..n {
+        let t = gm::tree(&mut r, &mut serial);
+        let root = scratch.join(format!("db{k}"));
+        let will_run = cx.replay.map_or(true, |target| target == cx.idx + 1) && !cx.describe_only;
+        if will_run {
+            build_tree(&root, &t);
+        }
+        cx.check(|| describe_tree(&t), |ev| check_tree(ev, &root, &t));
+        if will_run {
+            let _ = std::fs::remove_dir_all(&root);
+        }
+    }
+
+    // (b) a missing path and a plain file instead of a directory
+    let missing = scratch.join("no-such-db");
+    cx.check(
+        || "PkgDB::open on a path that does not exist".to_string(),
+        |ev| {
+            ev.count("open/missing_path");
+            ev.eval();
+            match PkgDB::open(&missing) {
+                Err(_) => Ok(()),
+                Ok(_) => Err("PkgDB::open succeeded on a missing path".into()),
+            }
+        },
+    );
+    let file = scratch.join("plain-file-db");
+    must(std::fs::write(&file, "not a directory\n"), "write", &file);
+    cx.check(
+        || "PkgDB::open on a plain file".to_string(),
+        |ev| {
+            ev.count("open/plain_file");
+            ev.eval();
+            match PkgDB::open(&file) {
+                Err(_) => {
+                    ev.count("open/plain_file/err");
+                    Ok(())
+                }
+                Ok(db) => {
+                    ev.count("open/plain_file/ok_no_items");
+                    let n = db.take(4).count();
+                    if n == 0 {
+                        Ok(())
+                    } else {
+                        Err(format!("a plain file opened as a database yields {n} item(s)").into())
+                    }
+                }
+            }
+        },
+    );
+
+    // (c) MetadataEntry <-> file name table, near-miss names
+    let mut r = cx.stream("names");
+    let nmut = cx.pick_tier(20, 200, 2_000, 20_000);
+    let mutated: Vec<String> = (0..nmut).map(|_| gm::mutate_name(&mut r)).collect();
+    cx.check(
+        || format!("metadata table both ways, {} near-miss and {} mutated names", gm::NEAR_MISS.len(), mutated.len()),
+        |ev| check_tables(ev, &mutated),
+    );
+
+    // (d) Metadata::is_valid over all 8 empty/non-empty combinations
+    let reps = cx.per_shard(16, 160, 1_600, 16_000);
+    let mut r = cx.stream("is-valid");
+    const TEXTS: [&str; 6] = [
+        "A comment",
+        "  padded text \n",
+        "line one\nline two\n",
+        "x",
+        "\n\u{e9}\u{20ac}\n",
+        "@name foo-1.0\nbin/foo\n",
+    ];
+    for rep in 0..reps {
+        for mask in 0..8usize {
+            let mut texts: [Option<String>; 3] = Default::default();
+            for (k, slot) in texts.iter_mut().enumerate() {
+                *slot = if mask & (1 << k) != 0 {
+                    Some(r.pick(&TEXTS).to_string())
+                } else if (rep + k as u64) % 2 == 0 {
+                    Some(String::new())
+                } else {
+                    None
+                };
+            }
+            let mut optional = vec![];
+            for i in [0usize, 4, 6, 10, 13] {
+                if r.chance(1, 3) {
+                    let t = if i == 13 { "12345\n".to_string() } else { format!("optional {i}\n") };
+                    optional.push((i, t));
+                }
+            }
+            let mut order: Vec<usize> = (0..3 + optional.len()).collect();
+            r.shuffle(&mut order);
+            let c = ValidCase { texts, order, optional };
+            cx.check(
+                || format!("is_valid with comment/contents/desc = {:?}, optional entries {:?}", c.texts, c.optional),
+                |ev| check_is_valid(ev, &c),
+            );
+        }
+    }
+}
